@@ -541,8 +541,48 @@ def check_ord_agreement(cr, rep):
     return n
 
 
+def check_bound_tests(cr, rep):
+    """L10.B - a capacity-bounded lattice (const generic bound) widens to its top exactly when the MERGED value exceeds the bound:
+    every comparison against the const parameter tests the size (`len()`) of ONE collection. A test on a sum of sizes
+    (`a.len() + b.len() > BOUND`) over-counts shared elements: overlapping operands whose union fits are widened, join is then
+    neither idempotent nor associative and `join_mut` disagrees with `join`."""
+    n = 0
+    for path, b in sorted(cr.bodies.items()):
+        if 'lattice' not in path:
+            continue
+        for x, parents in walk(b['tree']):
+            if x.get('k') != 'binary' or x.get('op') not in ('>', '>=', '<', '<=', '==', '!='):
+                continue
+            l, r = strip(x['l']), strip(x['r'])
+
+            def is_const_param(e):
+                return e.get('k') == 'path' and (e.get('dk') == 'ConstParam' or (e.get('res') == 'def' and str(e.get('d', '')).split('::')[-1].isupper() and 'ConstParam' in str(e.get('dk', ''))))
+            if is_const_param(l):
+                other = r
+            elif is_const_param(r):
+                other = l
+            else:
+                continue
+            n += 1
+            o = other
+            while o.get('k') in ('cast', 'addr') or (o.get('k') == 'unary' and o.get('op') == 'deref'):
+                o = strip(o['e'])
+            ok = o.get('k') == 'mcall' and o['m'] in ('len', 'count') and not any(y.get('k') == 'binary' for y, _ in walk(o['r']))
+            rep.inst('L10.B', '%s: bound test `%s` compares the size of one collection: %s' % (path, (x.get('snip') or '')[:60].replace('\n', ' '), ok))
+            rep.functions.add(path)
+            if not ok:
+                rep.viol('L10.B', path, 'bound-test-not-on-merged-size',
+                         'the bound is compared with `%s`, not with the size of the merged collection: operands that share elements are widened '
+                         'to top although their union fits (join no longer idempotent / associative, join_mut disagrees with join)' % (other.get('snip') or '')[:70].replace('\n', ' '),
+                         loc=cr.loc(x))
+    return n
+
+
 def check_L10(ctx, rep):
     cr = ctx.lib('ascent_base')
+    if check_bound_tests(cr, rep) < 3:
+        from core import Broken
+        raise Broken('L10.B: fewer than 3 comparisons against a const generic bound found (BoundedSet expected)')
     if check_ord_agreement(cr, rep) < 1:
         from core import Broken
         raise Broken('no type with hand-written partial_cmp and cmp found (Dual expected)')
